@@ -111,6 +111,17 @@ CHECKS = {
          "the candidate sets of the table. Found and fixed: F21 (and F06, F27 under C11)."),
    design_ref='DESIGN.md §5 C12',
    note=COMMON_NOTE + "hex/bytes 'secret+01' forms that start with 02/03/04 are classified public by construction (not self-describing; counted, not claimed). BIP38 export/import is covered under C15."),
+ 'C05': dict(
+   technique='Lean 4 theorems (lockScript/classifyScript mutually inverse for all destinations, witness version committed) + address->script and script->address correspondence on every network incl. cross-network offers',
+   text=("Proved in Lean: classifyScript (lockScript d) = d for every well-formed destination (P2PKH, P2SH, witness versions 0..16 with programs "
+         "of 2..40 bytes, v0 only 20/32) and classifyScript s = d implies lockScript d = s (no second script reads as the same destination); the "
+         "witness version is committed by the script; with the C11 codec theorems this makes address <-> script mutually inverse. The model (with "
+         "the generated network table) is compared with Output(address=...), Address objects, Transaction.add_output, Output(lock_script=...).address "
+         "on every network, both encodings, versions 0..16, program lengths 2..40, payloads that look like hex text or whitespace, and every address "
+         "is also offered to other networks (must be refused unless the library's own table cannot distinguish them). Found and fixed: F15, F31b, F31c."),
+   design_ref='DESIGN.md §5 C05',
+   note=COMMON_NOTE + "For outputs built from a bare public key or hash the script type is the library's default; the check demands only that the script commits to that key's hash. "
+        "Witness programs without a standard type name (v>=2, v1 with non-32-byte program) are compared by address only."),
 }
 
 NOT_YET = {}
